@@ -244,13 +244,22 @@ impl<T: Qcow2IoOps> Qcow2Dev<T> {
 
         // `offset < vsize` here, so the subtraction cannot underflow and no
         // `offset + len` is computed that could overflow
+        // `keep`: how many bytes of the part that is read hold image data
+        let mut keep = len;
         let extra = if (len as u64) > vsize - offset {
-            // Clamp to the in-image portion: only `vsize - offset` bytes are
-            // backed by data, rounded down to a block boundary.
-            len = ((vsize - offset) as usize) & !bs_mask;
+            let avail = (vsize - offset) as usize;
             if info.is_back_file() {
+                // a backing image may end inside a block of the top device:
+                // read up to the end of that block (the cluster exists in
+                // full) and zero what lies beyond the end afterwards
+                len = std::cmp::min(len, (avail + bs_mask) & !bs_mask);
+                keep = avail;
                 buf.len() - len
             } else {
+                // Clamp to the in-image portion: only `vsize - offset` bytes
+                // are backed by data, rounded down to a block boundary.
+                len = avail & !bs_mask;
+                keep = len;
                 0
             }
         } else {
@@ -275,12 +284,12 @@ impl<T: Qcow2IoOps> Qcow2Dev<T> {
         let done = if single {
             let l2_entry = self.get_l2_entry(offset).await?;
 
-            self.do_read(l2_entry, offset, buf).await?
+            self.do_read(l2_entry, offset, &mut *buf).await?
         } else {
             let nr_clusters = (len >> info.cluster_bits()) + 2;
             let mut reads = Vec::with_capacity(nr_clusters);
             let mut lens = Vec::with_capacity(nr_clusters);
-            let mut remain = buf;
+            let mut remain: &mut [u8] = &mut *buf;
             let mut idx = 0;
             let mut s = 0;
             let l2_entries = self.get_l2_entries(offset, len).await?;
@@ -313,6 +322,11 @@ impl<T: Qcow2IoOps> Qcow2Dev<T> {
             }
             s
         };
+
+        if keep < buf.len() {
+            let beyond = &mut buf[keep..];
+            zero_buf!(beyond);
+        }
 
         log::debug!(
             "read_at: offset {:x} len {} res {} <<<",
